@@ -239,7 +239,11 @@ class Message:
         while not unpacker.is_done():
             avps.append(Avp.from_unpacker(unpacker))
 
+        command_flags = header.command_flags
         msg = msg_type(header, avps)
+        # the command classes set their default flags when created; a message
+        # parsed from bytes keeps the flags that it was received with
+        msg.header.command_flags = command_flags
 
         return msg
 
